@@ -437,15 +437,52 @@ async fn consumer_task(
         return;
     }
     let drop_at = match mode {
-        Consumer::Drain | Consumer::StartAt(_) | Consumer::Never => None,
+        Consumer::Drain | Consumer::StartAt(_) | Consumer::Never | Consumer::Ticking { .. } => None,
         Consumer::DropAt(ms) => Some(ms),
     };
     let t0 = tokio::time::Instant::now();
     if let Consumer::StartAt(ms) = mode {
         tokio::time::sleep_until(t0 + Duration::from_millis(ms)).await;
     }
+    let (tick_ms, tick_until, tick_select) = match mode {
+        Consumer::Ticking { period_ms, until_ms, form } => (period_ms.max(1), until_ms, form),
+        _ => (0, 0, 0),
+    };
+    let mut next_tick = t0 + Duration::from_millis(tick_ms);
     loop {
         let next = match drop_at {
+            None if tick_ms > 0 && tokio::time::Instant::now() < t0 + Duration::from_millis(tick_until) => {
+                // wait for an event only until the next tick; an unfinished wait is dropped
+                let got = match tick_select {
+                    1 => tokio::select! {
+                        e = events.next() => Some(e),
+                        _ = tokio::time::sleep_until(next_tick) => None,
+                    },
+                    2 => {
+                        let polled_once = tokio::select! {
+                            biased;
+                            e = events.next() => Some(e),
+                            _ = std::future::ready(()) => None,
+                        };
+                        if polled_once.is_none() {
+                            // nothing there: "other work" until the next tick
+                            tokio::time::sleep_until(next_tick).await;
+                        }
+                        polled_once
+                    }
+                    _ => tokio::time::timeout_at(next_tick, events.next()).await.ok(),
+                };
+                match got {
+                    Some(e) => e,
+                    None => {
+                        let now = tokio::time::Instant::now();
+                        while next_tick <= now {
+                            next_tick += Duration::from_millis(tick_ms);
+                        }
+                        continue;
+                    }
+                }
+            }
             None => events.next().await,
             Some(ms) => {
                 let deadline = t0 + Duration::from_millis(ms);
